@@ -29,33 +29,89 @@ func stressRun(c *Ctx, seed uint64, cfg bedConfig, variant int) {
 	var wg sync.WaitGroup
 	var closeCalled time.Time
 	var cmu sync.Mutex
+	var pmu sync.Mutex // guards sc.peers while peers come and go
+	gone := map[int]bool{}
+	var sender func(p *rawPeer, pr *rng.R)
+	sender = func(p *rawPeer, pr *rng.R) {
+		defer wg.Done()
+		var mine []*rpcInfo
+		for {
+			select {
+			case <-stop:
+				return
+			default:
+			}
+			pmu.Lock()
+			left := gone[p.id]
+			pmu.Unlock()
+			if left {
+				return
+			}
+			// bounded backlog: at most 2*limit+6 requests of this peer are unanswered
+			tb.mu.Lock()
+			open := 0
+			for _, ri := range mine {
+				if !(ri.served || ri.gotErr) {
+					open++
+				}
+			}
+			tb.mu.Unlock()
+			if open <= 2*cfg.MaxRPC+6 {
+				for i := 1 + pr.Intn(3); i > 0; i-- {
+					e := endOK
+					if pr.Intn(5) == 0 {
+						e = 1 + pr.Intn(3)
+					}
+					mine = append(mine, tb.sendEnding(p, e))
+				}
+			}
+			time.Sleep(time.Duration(pr.Intn(1500)) * time.Microsecond)
+		}
+	}
 	for _, p := range sc.peers {
 		wg.Add(1)
-		pr := r.Fork()
+		go sender(p, r.Fork())
+	}
+	// peers that go away and come back while everything else is going on: their held handlers and
+	// blocked requests stay behind, the newcomer starts with a fresh channel but the same subnet
+	churn := !closeInTheMiddle && variant%4 == 2
+	reconnects := 0
+	if churn {
+		wg.Add(1)
+		cr := r.Fork()
 		go func() {
 			defer wg.Done()
-			var mine []*rpcInfo
 			for {
 				select {
 				case <-stop:
 					return
-				default:
+				case <-time.After(time.Duration(3+cr.Intn(12)) * time.Millisecond):
 				}
-				// bounded backlog: at most 2*limit+6 requests of this peer are unanswered
-				tb.mu.Lock()
-				open := 0
-				for _, ri := range mine {
-					if !(ri.served || ri.gotErr) {
-						open++
-					}
+				pmu.Lock()
+				i := cr.Intn(len(sc.peers))
+				p := sc.peers[i]
+				sc.peers = append(sc.peers[:i:i], sc.peers[i+1:]...)
+				gone[p.id] = true
+				sc.next++
+				id := sc.next
+				pmu.Unlock()
+				p.closedByHarness = true
+				p.close()
+				np, err := tb.dialTCP(id, p.sub, p.host)
+				if err != nil || tb.handshake(np) != nil {
+					continue
 				}
-				tb.mu.Unlock()
-				if open <= 2*cfg.MaxRPC+6 {
-					for i := 1 + pr.Intn(3); i > 0; i-- {
-						mine = append(mine, tb.send(p))
-					}
+				if !tb.waitFor(2*time.Second, func() bool { return np.isDead() || tb.hasPeer(np.addr) }) || np.isDead() {
+					np.close()
+					continue
 				}
-				time.Sleep(time.Duration(pr.Intn(1500)) * time.Microsecond)
+				pmu.Lock()
+				sc.peers = append(sc.peers, np)
+				sc.all = append(sc.all, np)
+				reconnects++
+				pmu.Unlock()
+				wg.Add(1)
+				go sender(np, cr.Fork())
 			}
 		}()
 	}
@@ -125,7 +181,7 @@ func stressRun(c *Ctx, seed uint64, cfg bedConfig, variant int) {
 		if ri.entered {
 			entered++
 		}
-		if ri.gotErr && !ri.entered && (closeCalled.IsZero() || ri.errAt.Before(closeCalled)) {
+		if ri.gotErr && !ri.entered && !gone[ri.conn] && (closeCalled.IsZero() || ri.errAt.Before(closeCalled)) {
 			drops++
 		}
 	}
@@ -169,6 +225,7 @@ func stressRun(c *Ctx, seed uint64, cfg bedConfig, variant int) {
 	}
 	c.Res.Eval(fmt.Sprintf("stress|%d|%+v|%d", seed, cfg, variant), entered > 0)
 	c.Res.Count("stress:runs")
+	c.Res.CountN("stress:peer-reconnects-under-load", reconnects)
 	c.Res.CountN("stress:requests", total)
 	c.Res.CountN("stress:handled", entered)
 	c.Res.CountN("stress:dropped", drops)
